@@ -474,13 +474,13 @@ Fixpoint remove_all_rec (fuel : nat) (h : heap) (u : user) (d : nat) : heap * op
         (fix loop (chs : list (str * nat)) (h : heap) : heap * option ekind :=
            match chs with
            | [] => (h, None)
-           | (_, c) :: chs' =>
+           | (nm, c) :: chs' =>
                if node_is_dir h c then
                  match remove_all_rec f h u c with
                  | (h1, Some e) => (h1, Some e)
-                 | (h1, None) => loop chs' (delete_node h1 c)
+                 | (h1, None) => loop chs' (delete_node (remove_child h1 d nm) c)
                  end
-               else loop chs' (delete_node h c)
+               else loop chs' (delete_node (remove_child h d nm) c)
            end) (children h d) h
   end.
 
